@@ -306,7 +306,7 @@ impl HeaderMetadataSpec {
                 (old_metadata, new_metadata)
             };
 
-            unsafe {
+            let res = unsafe {
                 T::compare_exchange(
                     addr,
                     old_metadata,
@@ -314,6 +314,12 @@ impl HeaderMetadataSpec {
                     success_order,
                     failure_order,
                 )
+            };
+            // With a mask, the metadata is only the masked bits: report those, as `load` does.
+            if let Some(mask) = optional_mask {
+                res.map(|x| x.bitand(mask)).map_err(|x| x.bitand(mask))
+            } else {
+                res
             }
         }
     }
